@@ -595,19 +595,20 @@ impl Campaign for C16 {
         let stalled = AtomicBool::new(false);
         let progress = AtomicU64::new(0);
         let idle: Vec<AtomicU64> = (0..workers).map(|_| AtomicU64::new(0)).collect();
+        // unsuccessful next() calls per worker, never reset (stall watchdog)
+        let polls: Vec<AtomicU64> = (0..workers).map(|_| AtomicU64::new(0)).collect();
         let committed = AtomicUsize::new(0);
         // number of boundaries for which the commit thread has *finished* releasing the successor
         let released = AtomicUsize::new(0);
         let profile = component_profile(&mut r, &[obs::Class::Dep], 0);
         obs().begin_run(&profile, r.next());
         let seeds: Vec<u64> = (0..workers + 1).map(|_| r.next()).collect();
-        let idle_limit: u64 = if cfg!(miri) { 300 } else { 20_000 };
 
         let events: Vec<Vec<(u64, DepEv)>> = std::thread::scope(|s| {
             let mut hs = Vec::new();
             for w in 0..workers {
-                let (deps, txs, clock, stop, progress, idle, committed, scripts, val_fail) =
-                    (&deps, &txs, &clock, &stop, &progress, &idle, &committed, &scripts, &val_fail);
+                let (deps, txs, clock, stop, progress, idle, polls, committed, scripts, val_fail) =
+                    (&deps, &txs, &clock, &stop, &progress, &idle, &polls, &committed, &scripts, &val_fail);
                 let seed = seeds[w];
                 hs.push(s.spawn(move || {
                     let mut tr = Rng::new(seed);
@@ -662,6 +663,7 @@ impl Campaign for C16 {
                         };
                         if task.is_none() {
                             idle[w].fetch_add(1, Ordering::Relaxed);
+                            polls[w].fetch_add(1, Ordering::Relaxed);
                             continue;
                         }
                         while let Some(t) = task.take() {
@@ -757,49 +759,48 @@ impl Campaign for C16 {
                     log
                 }));
             }
-            // stall watchdog (logical): every worker idle for a long streak and no progress
+            // stall watchdog, decided on logical conditions only. The commit head is *stranded* if
+            // it needs an execution (Initial / Conflict), the commit thread has finished releasing
+            // for the current boundary, nobody is executing anything, nothing has progressed, and
+            // meanwhile EVERY worker has completed at least n+2 further unsuccessful `next()` calls
+            // (so each of them is demonstrably scheduled, and together they have swept the cursor
+            // over the head after the release without being handed it). Three such epochs in a
+            // row. A worker that is merely not scheduled (loaded machine) never completes an
+            // epoch, so scheduling noise cannot add up to a verdict.
             {
-                let (stop, progress, idle, stalled, committed, txs, deps, released) = (&stop, &progress, &idle, &stalled, &committed, &txs, &deps, &released);
+                let (stop, progress, polls, stalled, committed, txs, released) = (&stop, &progress, &polls, &stalled, &committed, &txs, &released);
                 s.spawn(move || {
-                    let mut last = progress.load(Ordering::Relaxed);
-                    let mut same = 0;
+                    let need = txs.len() as u64 + 2;
+                    let snapshot = || polls.iter().map(|p| p.load(Ordering::Relaxed)).collect::<Vec<u64>>();
+                    let mut base = snapshot();
+                    let mut base_progress = progress.load(Ordering::Relaxed);
+                    let mut base_c = usize::MAX;
+                    let mut epochs = 0;
                     while !stop.load(Ordering::Acquire) {
                         if cfg!(miri) {
                             std::thread::yield_now();
                         } else {
                             std::thread::sleep(Duration::from_micros(300));
                         }
-                        let now = progress.load(Ordering::Relaxed);
-                        let all_idle = idle.iter().all(|i| i.load(Ordering::Relaxed) > idle_limit);
-                        // the commit head must itself be waiting for an execution nobody performs;
-                        // an executed head (committer or validator merely not scheduled yet) or an
-                        // executing one is progress about to happen, not a stall
-                        // Decided on logical state only (a loaded machine may leave a runnable
-                        // thread unscheduled for milliseconds): the commit head needs an execution,
-                        // nobody is executing anything, and `next()` can never hand the head out
-                        // again (not onboard, or blocked, or the cursor already passed it).
                         let c = committed.load(Ordering::Acquire);
-                        let mut head_unclaimable = false;
-                        // (the commit thread publishes the boundary and only then releases the
-                        // successor: until that release has finished it is about to make progress)
-                        if c < txs.len() && released.load(Ordering::Acquire) == c {
-                            let head = txs[c].lock();
-                            if matches!(head.st, St::Initial | St::Conflict) {
-                                let (states, _) = deps.dump();
-                                if let Some(Some((onboard, dependency))) = states.get(c) {
-                                    head_unclaimable = !*onboard || dependency.is_some() || deps.index() > c;
-                                }
-                            }
-                            drop(head);
-                        }
+                        let head_needs_execution = c < txs.len() &&
+                            released.load(Ordering::Acquire) == c &&
+                            matches!(txs[c].lock().st, St::Initial | St::Conflict);
                         let nobody_executing = txs.iter().all(|t| t.lock().st != St::Executing);
-                        if now == last && all_idle && head_unclaimable && nobody_executing {
-                            same += 1;
-                        } else {
-                            same = 0;
+                        let now = progress.load(Ordering::Relaxed);
+                        if !(head_needs_execution && nobody_executing) || now != base_progress || c != base_c {
+                            base = snapshot();
+                            base_progress = now;
+                            base_c = c;
+                            epochs = 0;
+                            continue;
                         }
-                        last = now;
-                        if same >= 3 {
+                        let cur = snapshot();
+                        if cur.iter().zip(base.iter()).all(|(a, b)| a.saturating_sub(*b) >= need) {
+                            epochs += 1;
+                            base = cur;
+                        }
+                        if epochs >= 3 {
                             stalled.store(true, Ordering::Release);
                             stop.store(true, Ordering::Release);
                         }
